@@ -285,3 +285,35 @@ package sqlite
 //@ func sql.(*DB).Close(db)
 //@   trusted
 //@   effect pure
+
+// ---------------------------------------------------------------- schema (pinned)
+// The assumed meaning of the statements (positions are assigned by AUTOINCREMENT:
+// unique, increasing, never reused; one saved position per subscription id) rests
+// on this schema text; changing it invalidates the assumption.
+//@ func sql.(*DB).BeginTx(db, ctx, opts)
+//@   trusted
+//@   effect pure
+//@   ensures err == nil ==> result0 != nil
+//@ func sql.(*Tx).ExecContext(tx, ctx, query, args)
+//@   trusted
+//@   effect pure
+//@ func sql.(*Tx).Commit(tx)
+//@   trusted
+//@   effect pure
+//@ func sql.(*Tx).Rollback(tx)
+//@   trusted
+//@   effect pure
+//@ event txExec := call (*Tx).ExecContext record 2:String
+//@ event txCommit := call (*Tx).Commit
+//@ event txRollback := call (*Tx).Rollback
+//@ func migrateV1
+//@   props C10
+//@   requires db != nil && ctx != nil
+//@   loop 1 invariant [idx] rangeindex < len(statements) && -1 <= rangeindex
+//@   loop 1 invariant [C10.schema.loop] cnt(txExec) == rangeindex + 1 && err == nil && tx != nil && cnt(txCommit) == 0 &&
+//@        (forall k int :: {nth(txExec, k, 2)} 0 <= k && k <= rangeindex ==> nth(txExec, k, 2) == statements[k])
+//@   ensures [C10.schema.pinned] cnt(txCommit) == 1 ==> cnt(txExec) == 4 &&
+//@        nth(txExec, 0, 2) == "\n\t\tCREATE TABLE IF NOT EXISTS events (\n\t\t\tposition INTEGER PRIMARY KEY AUTOINCREMENT,\n\t\t\ttype TEXT NOT NULL,\n\t\t\tdata BLOB NOT NULL,\n\t\t\ttimestamp DATETIME NOT NULL\n\t\t)" &&
+//@        nth(txExec, 2, 2) == "\n\t\tCREATE TABLE IF NOT EXISTS subscription_positions (\n\t\t\tsubscription_id TEXT PRIMARY KEY,\n\t\t\tposition INTEGER NOT NULL,\n\t\t\tupdated_at DATETIME NOT NULL DEFAULT CURRENT_TIMESTAMP\n\t\t)"
+//@   ensures [C10.schema.atomic] err != nil ==> cnt(txCommit) == 0 || lastres(txCommit, Iface) != nil
+//@   ensures [C10.schema.rollback] cnt(txExec) >= 1 && err != nil ==> cnt(txRollback) == 1
